@@ -972,7 +972,7 @@ func requiredExemption(r *core.Report, rule string) {
 		type want struct{ annot, dir string }
 		for _, w := range []want{{"ReadOnly", "asreq"}, {"WriteOnly", "asrep"}} {
 			key := "reqexempt:" + w.annot + "/" + w.dir
-			found, foreign := false, ""
+			found, foreign, mixed := false, "", ""
 			ast.Inspect(loop.Body, func(nd ast.Node) bool {
 				br, ok := nd.(*ast.BranchStmt)
 				if !ok || br.Tok != token.CONTINUE {
@@ -991,11 +991,19 @@ func requiredExemption(r *core.Report, rule string) {
 						})
 						return m
 					}
+					otherAnnot, otherDir := "WriteOnly", "asrep"
+					if w.annot == "WriteOnly" {
+						otherAnnot, otherDir = "ReadOnly", "asreq"
+					}
 					switch {
-					case mentions(w.annot) && a.Pos:
+					case mentions(w.annot) && a.Pos && !mentions(otherAnnot):
 						hasAnnot = true
-					case mentions(w.dir) && a.Pos:
+					case mentions(w.dir) && a.Pos && !mentions(otherDir):
 						hasDir = true
+					case mentions(w.annot) || mentions(w.dir):
+						// `ReadOnly || WriteOnly`, `asreq || asrep`: the annotation of one direction
+						// waives the requirement in the other
+						others = append(others, core.ExprStr(a.Expr))
 					default:
 						s := core.ExprStr(a.Expr)
 						// the lookups that lead to the property (value[k] absent, schema.Properties[k] != nil)
@@ -1010,10 +1018,14 @@ func requiredExemption(r *core.Report, rule string) {
 					if len(others) > 0 {
 						foreign = strings.Join(others, ", ")
 					}
+				} else if len(others) > 0 && foreign == "" {
+					mixed = strings.Join(others, ", ")
 				}
 				return true
 			})
 			switch {
+			case !found && mixed != "":
+				r.Bad(key, p.Pos(loop.Pos()), fmt.Sprintf("the exemption of a missing %s property from `required` is decided by %s, which mixes the two directions: a response that leaves out a required read-only property (or a request without a required write-only one) is accepted", w.annot, mixed))
 			case !found:
 				r.Bad(key, p.Pos(loop.Pos()), fmt.Sprintf("the `required` loop has no `continue` under the property's %s and settings.%s: whether a missing %s property is demanded is decided by something else (a set computed elsewhere, an option), so it is demanded — or waived — for the wrong requests", w.annot, w.dir, w.annot))
 			case foreign != "":
